@@ -169,6 +169,7 @@ func runMutants(c *lib.Case) {
 	c.Sample("mutant-"+name, map[string]any{"constructor": name, "header_bytes": len(o.hdrRaw), "acl_bytes": len(o.aclRaw), "settings_bytes": len(o.setRaw), "mutants": len(ms), "judged": judged})
 
 	probes(c, fx, ctor, o, donor)
+	resigned(c, fx, ctor, ks, o)
 }
 
 // ---------------------------------------------------------------- probes with third-party signatures
